@@ -16,7 +16,7 @@ fn main() {
         }
         "c12-dfs" => {
             let (n, v) = c12::dfs_all(arg(2, 2), arg(3, 2), arg(4, 1));
-            println!("{{\"transitions\":{},\"violation\":{:?}}}", n, v);
+            println!("{{\"transitions\":{},\"violation\":{}}}", n, match v { None => "null".to_string(), Some(x) => format!("{:?}", x) });
         }
         "c03" => {
             // c03 <depth> <max_cells>
